@@ -391,6 +391,18 @@ func genValCase(r *simrt.Rand, tier string, idx int) *ValCase {
 		case k < 4: // data message, maybe fragmented
 			f.Op = r.Pick(1, 2)
 			f.Payload = genPayload(r, f.Op == 1)
+			rsv := 0
+			if c.Compression && r.Bool(0.5) {
+				// a compressed message, as a peer may send it: flushed stream with the tail
+				// removed, or a stream that ends with a BFINAL block (RFC 7692 7.2.3.4)
+				if r.Bool(0.3) {
+					f.Payload = deflateFinal(f.Payload, r.Pick(1, 6, 9))
+				} else {
+					f.Payload = deflate(f.Payload, r.Pick(1, 6, 9))
+				}
+				rsv = 4
+				f.Rsv = 4
+			}
 			if r.Bool(0.4) {
 				// split into fragments, possibly inside a multi-byte rune, with an optional control frame in between
 				p := f.Payload
@@ -401,7 +413,7 @@ func genValCase(r *simrt.Rand, tier string, idx int) *ValCase {
 				if r.Bool(0.15) {
 					cutAt = 0 // an empty first fragment is legal
 				}
-				c.Frames = append(c.Frames, Frame{Fin: false, Op: f.Op, Masked: c.Server, Payload: p[:cutAt]})
+				c.Frames = append(c.Frames, Frame{Fin: false, Op: f.Op, Rsv: rsv, Masked: c.Server, Payload: p[:cutAt]})
 				if r.Bool(0.3) {
 					c.Frames = append(c.Frames, Frame{Fin: true, Op: 9, Masked: c.Server, Payload: []byte("mid")})
 				}
